@@ -338,6 +338,23 @@ func C17() int {
 				ok = false
 			}
 		}
+		// the same cell without any read: creation by an append to a fresh path, overwrite, append - judged on
+		// exists() and on the bytes of the final files only, so that what read() does to a content (the listed
+		// trailing-newline finding) cannot hide what write() does to it. These cells do not feed phase 2.
+		nr := []c17Op{{"E", c.path, ""}, {"A", c.path, c.content}, {"E", c.path, ""}, {"W", c.path, c.content}, {"A", c.path, c.content}, {"E", c.path, ""}, {"E", "other.txt", ""}}
+		for _, ctx := range []struct {
+			name         string
+			inFunc, vars bool
+		}{{"top", false, false}, {"function", true, false}, {"variables", false, true}} {
+			key := fmt.Sprintf("cell-without-read path=%q content=%q ctx=%s", c.path, c.content, ctx.name)
+			judge(key, key, c17Prog(nr, ctx.inFunc, ctx.vars))
+		}
+		{
+			key := fmt.Sprintf("cell-without-read path=%q content=%q ctx=wrappers", c.path, c.content)
+			judge(key, key, c17WrapperProg(nr))
+			key = fmt.Sprintf("cell-without-read path=%q content=%q ctx=first-sites-not-yet-run", c.path, c.content)
+			judge(key, key, c17LateProg(nr))
+		}
 		res[i] = ok
 		if i%17 == 0 {
 			r.Sample(map[string]string{"kind": "path-content-cell", "path": c.path, "content": c.content, "ops": fmt.Sprint(ops)})
@@ -543,7 +560,7 @@ func C17() int {
 	r.Set("distinct_nontrivial", distinct.Len())
 	r.Set("skipped_undefined", undef)
 	r.Set("exhaustive", !capped)
-	r.Set("rule", "phase 1: cell table path spelling x content (write, exists, read, append, read; at top level, inside a function, and with path/content in variables): stdout, exit, stderr and the final sandbox file system (exact bytes of every file, no other file) must equal the map[path]content model. phase 2: explicit-state search over the model file system: every operation sequence over {write, append, read, exists} x paths x contents up to the all-paths depth, then breadth-first search with state merging; each history replayed on the real transpiler + bash (alternating top level / function / variables). Phase 2 uses the paths and contents whose cells pass on this run, so it is fully sensitive there; failing cells are violations or listed known findings. states = distinct model file systems. phase 3 (Batch target, under the cmd.exe model that interprets the emitted file helpers from their text): every history up to the stated depth over 2 paths x 4 cmd-neutral contents (one of them two lines) in five program shapes; output, exit status and final file system must equal the model's; runs the cmd.exe model refuses to decide are counted, not judged.")
+	r.Set("rule", "phase 1: cell table path spelling x content (write, exists, read, append, read; at top level, inside a function, and with path/content in variables; the same cells without any read - append to a fresh path, overwrite, append, judged on exists() and the final bytes): stdout, exit, stderr and the final sandbox file system (exact bytes of every file, no other file) must equal the map[path]content model. phase 2: explicit-state search over the model file system: every operation sequence over {write, append, read, exists} x paths x contents up to the all-paths depth, then breadth-first search with state merging; each history replayed on the real transpiler + bash (alternating top level / function / variables). Phase 2 uses the paths and contents whose cells pass on this run, so it is fully sensitive there; failing cells are violations or listed known findings. states = distinct model file systems. phase 3 (Batch target, under the cmd.exe model that interprets the emitted file helpers from their text): every history up to the stated depth over 2 paths x 4 cmd-neutral contents (one of them two lines) in five program shapes; output, exit status and final file system must equal the model's; runs the cmd.exe model refuses to decide are counted, not judged.")
 	return finish(r)
 }
 
